@@ -19,6 +19,7 @@ import (
 	recpb "github.com/libp2p/go-libp2p-record/pb"
 	kb "github.com/libp2p/go-libp2p-kbucket"
 	"github.com/libp2p/go-libp2p-kbucket/peerdiversity"
+	"github.com/libp2p/go-libp2p/core/event"
 	"github.com/libp2p/go-libp2p/core/host"
 	"github.com/libp2p/go-libp2p/core/network"
 	"github.com/libp2p/go-libp2p/core/peer"
@@ -33,6 +34,7 @@ import (
 	"github.com/libp2p/go-libp2p-kad-dht/internal/simnet"
 	vu "github.com/libp2p/go-libp2p-kad-dht/internal/verifutil"
 	pb "github.com/libp2p/go-libp2p-kad-dht/pb"
+	"github.com/libp2p/go-libp2p-kad-dht/records"
 )
 
 func fPeer(n int) peer.ID { return peer.ID(fmt.Sprintf("verif-peer-%027d", n)) }
@@ -454,4 +456,127 @@ func TestVerifC16(t *testing.T) {
 			}
 			return true
 		}, Exec: execFullRT})
+}
+
+// ---------------------------------------------------------------------------------------------
+// C14 (sibling): Close of the accelerated client while operations are in flight; a constructor that fails half-way
+
+func runC14f(c *vu.Case) {
+	a := fkv(c.In[0])
+	if a["kind"] == "ctor" {
+		h := simnet.NewHost(fPeer(1000000))
+		nfail := 3
+		for i := 0; i < nfail; i++ {
+			_, err := NewFullRT(h, "/verif", DHTOption(kaddht.BootstrapPeers()), WithCrawler(&fakeCrawler{h: h, peers: map[peer.ID][]ma.Multiaddr{}}),
+				WithProviderManagerOptions(func(*records.ProviderManager) error { return errors.New("scripted: option failed") }))
+			if err == nil {
+				c.Out = append(c.Out, "ctor err=false panic=false")
+				h.Close()
+				return
+			}
+		}
+		synctest.Wait()
+		// a subscription left behind blocks the emitter once its queue is full
+		em, _ := h.EventBus().Emitter(new(event.EvtPeerConnectednessChanged))
+		done := make(chan struct{})
+		go func() {
+			defer close(done)
+			for i := 0; i < 64; i++ {
+				_ = em.Emit(event.EvtPeerConnectednessChanged{Peer: fPeer(i), Connectedness: network.Connected})
+			}
+		}()
+		synctest.Wait()
+		out := "ctor err=true panic=false bus=free"
+		select {
+		case <-done:
+		default:
+			out = "ctor err=true panic=false bus=BLOCKED"
+		}
+		h.Close()
+		c.Out = append(c.Out, out)
+		return
+	}
+	key := "/v/" + a["key"]
+	keyMH, _ := mh.Sum([]byte("verif-frt-"+a["key"]), mh.SHA2_256, -1)
+	w := newFullRTWorld(a, key)
+	ctx := context.Background()
+	kc := cid.NewCidV1(cid.Raw, keyMH)
+	nops := 2
+	done := make(chan struct{}, nops)
+	for i := 0; i < nops; i++ {
+		go func() {
+			defer func() { done <- struct{}{} }()
+			switch a["op"] {
+			case "provide":
+				_ = w.d.Provide(ctx, kc, true)
+			case "putvalue":
+				_ = w.d.PutValue(ctx, key, []byte("1:ok"))
+			case "getvalue":
+				_, _ = w.d.GetValue(ctx, key)
+			case "findproviders":
+				_, _ = w.d.FindProviders(ctx, kc)
+			case "providemany":
+				_ = w.d.ProvideMany(ctx, []mh.Multihash{keyMH})
+			}
+		}()
+	}
+	synctest.Wait()
+	closed := make(chan struct{}, 1)
+	go func() { _ = w.d.Close(); closed <- struct{}{} }()
+	synctest.Wait()
+	for round := 0; round < 200; round++ {
+		ps := w.sender.Pending()
+		if len(ps) == 0 {
+			break
+		}
+		if ps[0].Ctx.Err() != nil {
+			w.sender.Release(ps[0], simnet.Result{CtxErr: true})
+		} else {
+			w.sender.Release(ps[0], simnet.Result{Err: simnet.ErrScripted})
+		}
+		synctest.Wait()
+	}
+	time.Sleep(2 * time.Minute)
+	synctest.Wait()
+	returned, nclosed := 0, 0
+	for {
+		select {
+		case <-done:
+			returned++
+			continue
+		case <-closed:
+			nclosed++
+			continue
+		default:
+		}
+		break
+	}
+	w.h.Close()
+	synctest.Wait()
+	c.Out = append(c.Out, fmt.Sprintf("returned=%d/%d closed=%d/1", returned, nops, nclosed))
+}
+
+func TestVerifC14f(t *testing.T) {
+	vu.Run(t, vu.Config{Prop: "C14f", QuickN: 120, ThoroughN: 4000,
+		Gen: func(r *vu.RNG, c *vu.Case) bool {
+			if c.Idx%8 == 7 {
+				c.In = append(c.In, "life kind=ctor")
+			} else {
+				c.In = append(c.In, fmt.Sprintf("life kind=op op=%s key=%d K=3 limit=0 n=%d peers=", []string{"provide", "putvalue", "getvalue", "findproviders", "providemany"}[r.Intn(5)], c.Idx, r.Range(1, 6)))
+			}
+			c.Tag("nontrivial")
+			return true
+		}, Exec: func(c *vu.Case) {
+			func() {
+				defer func() {
+					if r := recover(); r != nil {
+						for len(c.Out) < len(c.In) {
+							c.Out = append(c.Out, "-")
+						}
+						c.Out[len(c.Out)-1] += " |BUBBLE:" + strings.ReplaceAll(fmt.Sprint(r), " ", "_")
+					}
+				}()
+				synctest.Test(c.T, func(t *testing.T) { runC14f(c) })
+			}()
+		}})
 }
